@@ -106,6 +106,26 @@ func runC20Queue(c c20QueueCase) Verdict {
 			return *v
 		}
 	}
+	// the emptied queue is used again
+	for i := 0; i < 5; i++ {
+		step++
+		q.Enqueue(next)
+		model = append(model, next)
+		next++
+		if v := check("enqueue after the queue was emptied"); v != nil {
+			return *v
+		}
+	}
+	for len(model) > 0 {
+		step++
+		if got := q.Dequeue(); got != model[0] {
+			return failf("step %d (after the queue was emptied and refilled): Dequeue() = %d, want %d", step, got, model[0])
+		}
+		model = model[1:]
+		if v := check("second drain"); v != nil {
+			return *v
+		}
+	}
 	v := Verdict{NonTrivial: growths >= 2 && wrappedGrowths >= 1}
 	v.Classes = append(v.Classes, fmt.Sprintf("growths=%d", min(growths, 4)), fmt.Sprintf("wrapped_growths=%d", min(wrappedGrowths, 3)))
 	return v
@@ -408,7 +428,24 @@ func runC20Tokens(c textCase) Verdict {
 }
 
 func genTokenInput(t *rapid.T) textCase {
-	switch rapid.IntRange(0, 10).Draw(t, "kind") {
+	switch rapid.IntRange(0, 11).Draw(t, "kind") {
+	case 11:
+		// many levels of indentation open at the same time
+		levels := rapid.SampledFrom([]int{5, 30, 64, 99, 100, 101, 128, 130, 255, 256, 300}).Draw(t, "levels")
+		unit := rapid.SampledFrom([]string{" ", "\t", "  "}).Draw(t, "unit")
+		var b strings.Builder
+		b.WriteString("title: A\n---\n")
+		for d := 0; d < levels; d++ {
+			b.WriteString(strings.Repeat(unit, d) + "-> o\n")
+		}
+		b.WriteString(strings.Repeat(unit, levels) + "deepest\n")
+		switch rapid.IntRange(0, 2).Draw(t, "tail") {
+		case 0:
+			b.WriteString("back at the top\n===\n")
+		case 1:
+			b.WriteString(strings.Repeat(unit, levels/2) + "half-way back\n===\n")
+		}
+		return textCase{Input: b.String(), Kind: "deep-nesting"}
 	case 10:
 		// long scripts: many indented blocks, so that many synthesised tokens are queued over the run
 		n := rapid.SampledFrom([]int{40, 130, 255, 256, 257, 300, 520, 700, 1100}).Draw(t, "blocks")
